@@ -18,7 +18,7 @@ pub fn def() -> PropDef {
         streams,
         run,
         floors,
-        rule: "(a) suffix independence: for inputs with a declared length (control, data with L) decode(b) vs decode(b ++ s) for random suffixes of 1..64 octets: same value, reader left with exactly |s| octets; rejected b stays rejected; (b) k <= 6 mixed control / data-with-length messages packed back to back are decoded one after another from one reader and must give the k values; (c) AVP compositionality: try_read_greedy(r1++..++rk) = concatenation of try_read_greedy(ri) for well-delimited records (good and individually undecodable), through SliceReader and contract readers (whose sub-reader windows confine each payload decoder). Distinct = distinct inputs; non-trivial = accepted base message or list of >= 2 records. Also: records with surplus payload shaped like AVP records; lists and messages beyond 64 KiB.",
+        rule: "(a) suffix independence: for inputs with a declared length (control, data with L) decode(b) vs decode(b ++ s) for random suffixes of 1..64 octets: same value, reader left with exactly |s| octets; rejected b stays rejected; (b) k <= 6 mixed control / data-with-length messages packed back to back are decoded one after another from one reader and must give the k values; (c) AVP compositionality: try_read_greedy(r1++..++rk) = concatenation of try_read_greedy(ri) for well-delimited records (good and individually undecodable), through SliceReader and contract readers (whose sub-reader windows confine each payload decoder). Distinct = distinct inputs; non-trivial = accepted base message or list of >= 2 records. Also: records with surplus payload shaped like AVP records; lists and messages beyond 64 KiB; (d) live receive queue: the message is complete when its decode starts and the octets behind its declared end arrive between reader calls (len() grows): same value, exactly the declared length consumed, packed messages still decode one after another.",
     }
 }
 
@@ -47,6 +47,8 @@ fn floors(t: Tier) -> Vec<(String, u64)> {
         ("concat.with_bad_record".into(), 1000),
         ("concat.with_surplus_payload".into(), 1000),
         ("suffix.virtual_4gib".into(), 500),
+        ("suffix.live_queue.octets_arrived_during_decode".into(), 1000),
+        ("sequence.live_queue.octets_arrived_during_decode".into(), 500),
     ]
 }
 
@@ -161,7 +163,68 @@ fn judge_suffix(ctx: &mut Ctx, b: &[u8], tag: &str) {
             }
         }
     }
+    // (3) the same suffix arriving on a live receive queue while the message is being decoded:
+    // the message is complete when decoding starts, octets behind its declared end arrive before
+    // later reader calls (so `len()` grows between calls)
+    if let Out::Ok(x) = &base.out {
+        let s = ctx.rng.bytes_range(1, 40);
+        let mut b2 = b.to_vec();
+        b2.extend_from_slice(&s);
+        let start_call = ctx.rng.below(10);
+        let per_call = *ctx.rng.pick(&[1usize, 1, 2, 3, 5, 8, 40]);
+        let (e, arrivals) = live_decode(&b2, &[end], Some(o), start_call, per_call);
+        ctx.rep.bucket("suffix.live_queue");
+        if arrivals > 0 {
+            ctx.rep.bucket("suffix.live_queue.octets_arrived_during_decode");
+        }
+        match e {
+            Ok(got) => {
+                let (m, rem) = &got[0];
+                match m {
+                    Ok(y) if y == x && *rem == s.len() => {}
+                    other => ctx.violate(
+                        format!("C08:live-queue:{}", match other { Ok(y) if y != x => "value", Ok(_) => "position", Err(_) => "rejected" }),
+                        format!("{} octets behind the declared end arrived {} at a time from reader call {} on: got {:?} with {} octets of the stream left; from a fixed buffer {:?} with {} left", s.len(), per_call, start_call, other, rem, x, s.len()),
+                        J::obj(vec![("input_hex", J::hex(b)), ("suffix_hex", J::hex(&s)), ("options", J::s(opts_str(Some(o)))), ("arrival_from_call", J::U(start_call)), ("octets_per_call", J::U(per_call as u64))]),
+                    ),
+                }
+            }
+            Err(p) => ctx.violate(
+                format!("C08:live-queue:panic:{}", p.class()),
+                format!("decoding from a live queue panicked: {}", p.message),
+                J::obj(vec![("input_hex", J::hex(b)), ("suffix_hex", J::hex(&s)), ("options", J::s(opts_str(Some(o)))), ("arrival_from_call", J::U(start_call)), ("octets_per_call", J::U(per_call as u64))]),
+            ),
+        }
+    }
     ctx.rep.bucket(&format!("gen.{}", tag));
+}
+
+/// Decode the messages ending at `bounds` one after another from a live queue; each message is
+/// complete before its own decode starts. Returns per message (value, octets of the whole stream
+/// behind the reader) and the number of calls before which octets arrived.
+fn live_decode(stream: &[u8], bounds: &[usize], o: Option<SOpts>, start_call: u64, per_call: usize) -> (Result<Vec<(Result<SMsg, Vec<rl2tp::common::DecodeError>>, usize)>, crate::monitor::panic::PanicInfo>, u64) {
+    use crate::monitor::reader::LiveQueueReader;
+    let arrivals = std::cell::Cell::new(0u64);
+    let res = crate::monitor::panic::catch(|| {
+        let mut r = LiveQueueReader::new(stream, 0, start_call, per_call);
+        let mut got = Vec::new();
+        for b in bounds {
+            r.deliver_upto(*b);
+            let m = match o {
+                Some(o) => Message::<Vec<u8>>::try_read_validate(&mut r, crate::glue::opts(o)),
+                None => Message::<Vec<u8>>::try_read(&mut r),
+            }
+            .map(|m| crate::glue::msg_to_spec(&m));
+            got.push((m, r.total_remaining()));
+            arrivals.set(r.arrivals());
+        }
+        got
+    });
+    match res {
+        crate::monitor::panic::Ended::Returned(g) => (Ok(g), arrivals.get()),
+        crate::monitor::panic::Ended::Panicked(p) => (Err(p), arrivals.get()),
+        _ => unreachable!(),
+    }
 }
 
 /// k messages back to back, decoded from one SliceReader.
@@ -213,6 +276,40 @@ fn judge_sequence(ctx: &mut Ctx) {
                     format!("message {} of {}: got {:?} with {} octets left, expected {:?} with {} left", i + 1, k, other, rem, msgs[i], want_rem),
                     J::obj(vec![("stream_hex", J::hex(&stream)), ("boundaries", J::A(bounds.iter().map(|b| J::U(*b as u64)).collect()))]),
                 );
+                return;
+            }
+        }
+    }
+    // the same stream from a live receive queue: each message complete before its decode starts,
+    // the following ones arriving meanwhile
+    {
+        let start_call = ctx.rng.below(8);
+        let per_call = *ctx.rng.pick(&[1usize, 2, 3, 7, 20]);
+        let (e, arrivals) = live_decode(&stream, &bounds, None, start_call, per_call);
+        ctx.rep.bucket("sequence.live_queue");
+        if arrivals > 0 {
+            ctx.rep.bucket("sequence.live_queue.octets_arrived_during_decode");
+        }
+        let wit = || J::obj(vec![("stream_hex", J::hex(&stream)), ("boundaries", J::A(bounds.iter().map(|b| J::U(*b as u64)).collect())), ("arrival_from_call", J::U(start_call)), ("octets_per_call", J::U(per_call as u64))]);
+        match e {
+            Ok(got) => {
+                for (i, (m, rem)) in got.iter().enumerate() {
+                    let want_rem = stream.len() - bounds[i];
+                    match m {
+                        Ok(v) if *v == msgs[i] && *rem == want_rem => {}
+                        other => {
+                            ctx.violate(
+                                format!("C08:live-queue:sequence:{}", match other { Ok(_) if *rem != want_rem => "position", Ok(_) => "value", Err(_) => "rejected" }),
+                                format!("message {} of {} from a live queue ({} octets per call from call {}): got {:?} with {} octets of the stream left, expected {:?} with {} left", i + 1, k, per_call, start_call, other, rem, msgs[i], want_rem),
+                                wit(),
+                            );
+                            return;
+                        }
+                    }
+                }
+            }
+            Err(p) => {
+                ctx.violate(format!("C08:live-queue:sequence:panic:{}", p.class()), format!("decoding {} packed messages from a live queue panicked: {}", k, p.message), wit());
                 return;
             }
         }
